@@ -33,6 +33,7 @@ const maxMarkerIDByteCount = 4 * maxMarkerIDRuneCount // max 4 bytes per rune
 
 type negint uint64
 type rid string
+type timeKey string
 
 type EventRule interface {
 	OnBeginDocument(ctx *Context)
